@@ -71,6 +71,8 @@ def run(cfg, seed=0, scheduler="synchronous", output_file=None, write_stages=Fal
     import nuspacesim
 
     with owned(seed, scheduler, **dask_kw), own.quiet():
+        if write_stages == "omitted":  # the keyword left out altogether (its default is "disabled")
+            return nuspacesim.compute(cfg, output_file=output_file)
         return nuspacesim.compute(cfg, output_file=output_file, write_stages=write_stages)
 
 
